@@ -85,6 +85,28 @@ func compareWholeDB(o *hx.Oracle, path string, db *sqlittle.DB, low *sdb.Databas
 			}
 			rows += len(gi)
 		}
+		// the definition attached to a fresh low-level table handle is the current one
+		if low != nil && t.WR == 0 {
+			if err := low.RLock(); err == nil {
+				var defCols []string
+				var derr error
+				if th, err := low.Table(t.Name); err == nil {
+					if def, err := th.Def(); err == nil {
+						for _, c := range def.Columns {
+							defCols = append(defCols, c.Name)
+						}
+					} else {
+						derr = err
+					}
+				} else {
+					derr = err
+				}
+				low.RUnlock()
+				if derr == nil && strings.Join(defCols, "\x00") != strings.Join(cols, "\x00") {
+					return "stale/Table.Def", fmt.Sprintf("Table(%s).Def() has columns %v, SQLite has %v", t.Name, defCols, cols), rows
+				}
+			}
+		}
 		// an index sqlittle still lists although SQLite dropped it
 		if low != nil {
 			if err := low.RLock(); err == nil {
@@ -202,6 +224,10 @@ func c08History(run *hx.Run, o *hx.Oracle, dir string, h int, steps int) {
 		"CREATE TABLE t(id INTEGER PRIMARY KEY, v, ver INTEGER, pad TEXT)",
 		"CREATE INDEX ix_t_v ON t(v)",
 		fmt.Sprintf("WITH RECURSIVE c(i) AS (SELECT 1 UNION ALL SELECT i+1 FROM c WHERE i < %d) INSERT INTO t(id, v, ver, pad) SELECT i, (i*7919) %% 1000, 0, 'row' || i || substr('xxxxxxxxxxxxxxxxxxxxxxxxxxxxxxxxxxxxxxxxxxxxxxxxxxxxxxxxxxxxxxxxxxxxxxxxxxxxxxxx', 1, i %% 80) FROM c", rows),
+		// rows and index entries with overflow chains (rewritten in place by the write kind rewrite-big)
+		"CREATE TABLE b(id INTEGER PRIMARY KEY, ver INTEGER, body TEXT)",
+		"CREATE INDEX ix_b_body ON b(body)",
+		fmt.Sprintf("INSERT INTO b(ver, body) SELECT 0, substr(replace(hex(zeroblob(n)), '00', 'Aa'), 1, n) FROM (SELECT %d AS n UNION ALL SELECT %d UNION ALL SELECT 700 UNION ALL SELECT 5000 UNION ALL SELECT %d UNION ALL SELECT 9000)", ps+200, 3*ps, 2*ps+17),
 		"CREATE TABLE w(k TEXT, n INTEGER, PRIMARY KEY(k, n)) WITHOUT ROWID",
 		"INSERT INTO w VALUES('a',1),('b',2),('c',3)",
 	}
@@ -253,7 +279,10 @@ func c08History(run *hx.Run, o *hx.Oracle, dir string, h int, steps int) {
 	for step := 1; step <= steps; step++ {
 		version++
 		var w c08Write
-		switch k := rng.Intn(15); k {
+		switch k := rng.Intn(16); k {
+		case 14:
+			// same lengths, same overflow pages, other bytes
+			w = c08Write{"rewrite-big", []string{fmt.Sprintf("UPDATE b SET ver=%d, body=replace(body, substr(body, 1, 1), char(%d))", version, 66+version%25)}}
 		case 13:
 			nps := []int{512, 1024, 2048, 4096, 8192}[rng.Intn(5)]
 			w = c08Write{"vacuum-new-page-size", []string{fmt.Sprintf("PRAGMA page_size=%d", nps), "VACUUM"}}
